@@ -95,6 +95,7 @@ def run_shard(spec, acc):
         acc.sample({"identifier_range": [lo, hi]})
     elif kind == "public":
         public_path(spec, rng, acc)
+        undefined_pgns(spec, rng, acc)
     elif kind == "stub":
         stub_path(spec, rng, acc)
 
@@ -213,6 +214,44 @@ def public_path(spec, rng, acc):
                               {"kind": "public_decode", "fmt": fmt_, "definition": d.id, "expected": list(exp_)})
                 break
         acc.sample({"definition": d.id, "pgn": d.pgn, "combos": len(combos)}, cap=3)
+
+
+def undefined_pgns(spec, rng, acc):
+    """PGN numbers the database does not define (the whole proprietary ranges, and a sample of the rest): the library may
+    decline them, but whatever it returns carries the identifier's own PGN, source, destination and priority."""
+    dbx = refdb.db()
+    dec = NMEA2000Decoder()
+    cands = [p for p in list(range(0xFF00, 0x10000)) + list(range(0x1FF00, 0x20000)) + [0xEF00, 0x1EF00] + [rng.randrange(1 << 18) for _ in range(1500)]
+             if p not in dbx.by_pgn]
+    cands = [p for k, p in enumerate(cands) if k % spec["n"] == spec["i"]]
+    for pgn in cands:
+        prio, src, dst = rng.randrange(8), rng.randrange(256), rng.randrange(256)
+        pdu1 = ((pgn >> 8) & 0xFF) < 240
+        if pdu1:
+            pgn &= 0x3FF00
+        ident = wire.can_id(prio, pgn, src, dst)
+        body = bytes([0xFE, 0x07]) + bytes(rng.randrange(256) for _ in range(6))
+        outs = []
+        try:
+            outs.append(("ebyte", dec.decode_tcp(wire.ebyte_frame(ident, body))))
+            outs.append(("usb", dec.decode_usb(wire.usb_frame(ident, body))))
+            r = None
+            for f in wire.fast_frames(body + bytes(5), rng.randrange(8), 0xFF):
+                r = dec.decode_yacht_devices_string(wire.yd_line(ident, f).strip())
+            outs.append(("yd_fast", r))
+            outs.append(("actisense", dec.decode_actisense_string(wire.actisense_line(prio, pgn, src, dst if pdu1 else 255, body))))
+        except Exception:  # noqa: BLE001 - declining with an error is fine
+            pass
+        acc.count("undefined_pgns_tried")
+        exp = (prio, pgn, src, dst if pdu1 else 255)
+        for fmt, m in outs:
+            if m is None:
+                continue
+            acc.case((fmt, exp))
+            acc.count("undefined_pgn_messages_returned")
+            if hdr(m) != exp:
+                acc.violation("decoded-header-mismatch", f"{fmt}: a frame of the undefined PGN {pgn} sent as {exp} came back as {hdr(m)} ({m.id})",
+                              {"kind": "undefined_pgn", "fmt": fmt, "pgn": pgn, "prio": prio, "src": src, "dst": dst})
 
 
 def stub_path(spec, rng, acc):
